@@ -853,13 +853,16 @@ func c16Exec(seq c16Seq, pristine bool) c16SeqRes {
 
 // c16Expect judges one executed sequence against facts about the API that do not need the Coq model (so that a
 // disagreeing case can be reported as a concrete failing input, and a replay can decide on its own):
-//   - SetSchema never touches the parsed maps; with no version and no schema it changes nothing but the version string
-//     (in particular it must not clear schemaInit: every build calls it) and is a no-op when a schema is set and !reset;
-//     with a custom schema / a valid version it installs exactly that and re-arms initSchema;
+//   - SetSchema either leaves the parsed maps alone or drops them completely, and it drops them exactly when the
+//     selection moves away from a custom schema or to a different one; with no version and no schema it otherwise
+//     changes nothing but the version string (in particular it must not clear schemaInit: every build calls it);
+//     selecting the built-in version already in use changes nothing but the version string; it is a no-op when a
+//     schema is set and !reset; a custom schema / a valid version is installed exactly;
 //   - SchemaForResourceType leaves schemaInit set; queries never shrink the maps;
 //   - precomputed kinds are answered from the table without touching the state;
 //   - GetSchemaVersion agrees with the snapshot; ResetOpenAPI restores the pristine state;
-//   - a build without openapi field (also in its base) neither changes customSchema nor un-initialises the schema.
+//   - after a build without openapi field (also in its base) no custom schema is installed, and the build does not
+//     un-initialise a built-in schema that was initialised.
 func c16Expect(seq c16Seq, res c16SeqRes) []string {
 	var bad []string
 	say := func(i int, name, detail string) {
@@ -869,6 +872,18 @@ func c16Expect(seq c16Seq, res c16SeqRes) []string {
 	mapsOf := func(s openapi.VerifStateC16) string {
 		return fmt.Sprint(s.NumDefs, s.NumByType, s.NumNs, s.Defs, s.ByType, s.Ns, s.NsNotPrecomp)
 	}
+	dropped := func(s openapi.VerifStateC16) bool {
+		return s.NumDefs == -1 && s.NumByType == -1 && s.NumNs == -1 && !s.SchemaInit && s.DefaultStatus == 0
+	}
+	sameBuiltin := func(a, b, dflt string) bool {
+		if a == "" {
+			a = dflt
+		}
+		if b == "" {
+			b = dflt
+		}
+		return a == b
+	}
 	isDefaultField := func(ver *string, schema int) bool { return schema < 0 && (ver == nil || *ver == "") }
 	prev := res.First
 	for i, op := range seq.Ops {
@@ -877,13 +892,13 @@ func c16Expect(seq c16Seq, res c16SeqRes) []string {
 		}
 		st := res.Steps[i]
 		cur := st.Snap
-		if op.K != "reset" && (cur.NumDefs < prev.NumDefs || cur.NumByType < prev.NumByType || cur.NumNs < prev.NumNs) {
+		if op.K != "reset" && op.K != "set" && op.K != "build" && (cur.NumDefs < prev.NumDefs || cur.NumByType < prev.NumByType || cur.NumNs < prev.NumNs) {
 			say(i, "maps-shrank", fmt.Sprintf("before %s after %s", mapsOf(prev), mapsOf(cur)))
 		}
 		switch op.K {
 		case "set":
-			if mapsOf(cur) != mapsOf(prev) {
-				say(i, "SetSchema-touched-the-parsed-maps", fmt.Sprintf("before %s after %s", mapsOf(prev), mapsOf(cur)))
+			if mapsOf(cur) != mapsOf(prev) && !dropped(cur) {
+				say(i, "SetSchema-changed-the-parsed-maps-without-dropping-them", fmt.Sprintf("before %s after %s", mapsOf(prev), mapsOf(cur)))
 			}
 			isSet := prev.Version != "" || prev.HasCustom
 			switch {
@@ -894,18 +909,47 @@ func c16Expect(seq c16Seq, res c16SeqRes) []string {
 			case st.Class != ClsOk:
 				// rejected field: nothing to expect here (the model covers what is left behind)
 			case isDefaultField(op.Ver, op.Schema):
-				want := prev
-				want.Version = ""
-				if js(cur) != js(want) {
-					say(i, "default-SetSchema-changed-more-than-the-version", js(prev)+" -> "+js(cur))
+				if prev.HasCustom {
+					if cur.HasCustom || cur.Version != "" || !dropped(cur) {
+						say(i, "default-SetSchema-kept-a-custom-schema", js(prev)+" -> "+js(cur))
+					}
+				} else {
+					want := prev
+					want.Version = ""
+					if js(cur) != js(want) {
+						say(i, "default-SetSchema-changed-more-than-the-version", js(prev)+" -> "+js(cur))
+					}
 				}
 			case op.Schema >= 0:
-				if !cur.HasCustom || cur.CustomHash != seq.Schemas[op.Schema].hash() || cur.SchemaInit || cur.Version != "custom" {
+				h := seq.Schemas[op.Schema].hash()
+				if !cur.HasCustom || cur.CustomHash != h || cur.SchemaInit || cur.Version != "custom" {
 					say(i, "custom-SetSchema-not-installed", js(cur))
 				}
+				if prev.HasCustom && prev.CustomHash != h && !dropped(cur) {
+					say(i, "custom-SetSchema-kept-what-another-custom-schema-parsed", js(prev)+" -> "+js(cur))
+				}
+				if (!prev.HasCustom || prev.CustomHash == h) && mapsOf(cur) != mapsOf(prev) {
+					say(i, "custom-SetSchema-dropped-the-maps-needlessly", js(prev)+" -> "+js(cur))
+				}
 			default:
-				if cur.HasCustom || cur.SchemaInit || op.Ver == nil || cur.Version != *op.Ver {
+				if cur.HasCustom || op.Ver == nil || cur.Version != *op.Ver {
 					say(i, "version-SetSchema-not-installed", js(cur))
+				}
+				switch {
+				case prev.HasCustom:
+					if !dropped(cur) {
+						say(i, "version-SetSchema-kept-what-a-custom-schema-parsed", js(prev)+" -> "+js(cur))
+					}
+				case op.Ver != nil && sameBuiltin(prev.Version, *op.Ver, cur.DefaultVersion):
+					want := prev
+					want.Version = *op.Ver
+					if js(cur) != js(want) {
+						say(i, "same-version-SetSchema-changed-more-than-the-version", js(prev)+" -> "+js(cur))
+					}
+				default:
+					if cur.SchemaInit {
+						say(i, "version-SetSchema-did-not-re-arm-initSchema", js(cur))
+					}
 				}
 			}
 		case "schemafor":
@@ -943,10 +987,10 @@ func c16Expect(seq c16Seq, res c16SeqRes) []string {
 		case "build":
 			t := op.Tree
 			if isDefaultField(t.Ver, t.Schema) && (!t.HasBase || isDefaultField(t.BaseVer, t.BaseSchema)) {
-				if cur.HasCustom != prev.HasCustom || cur.CustomHash != prev.CustomHash {
-					say(i, "default-build-changed-customSchema", js(prev)+" -> "+js(cur))
+				if cur.HasCustom {
+					say(i, "custom-schema-installed-after-a-default-build", js(prev)+" -> "+js(cur))
 				}
-				if prev.SchemaInit && !cur.SchemaInit {
+				if prev.SchemaInit && !prev.HasCustom && !cur.SchemaInit {
 					say(i, "default-build-uninitialised-the-schema", js(prev)+" -> "+js(cur))
 				}
 			}
